@@ -183,9 +183,13 @@ impl PrimitiveArray<bool> {
         BitVec::from_bool_slice(&self.data)
     }
 
-    /// Returns a bool array of `true` values.
-    pub fn true_array(&self) -> &[bool] {
-        &self.data
+    /// Returns for each element whether it is `true`. NULL is not `true`, whatever raw value
+    /// lies under it.
+    pub fn true_array(&self) -> Vec<bool> {
+        (self.data.iter())
+            .zip(self.valid.iter().by_vals())
+            .map(|(data, valid)| *data && valid)
+            .collect()
     }
 }
 
